@@ -359,7 +359,8 @@ class Site:
         from harness import envsub, world
         import pygopherd.server
         self.envsub, self.world, self.srvmod = envsub, world, pygopherd.server
-        self.scratch = tlc.new_scratch("c04")
+        import tempfile
+        self.scratch = tempfile.mkdtemp(prefix="w-", dir=_BASE) if _BASE else tlc.new_scratch("c04")
         root = os.path.join(self.scratch, "r")
         os.makedirs(root)
         self.root = root
@@ -446,6 +447,7 @@ class Site:
 
 
 _SITE = None
+_BASE = None          # scratch directory of this run (created and removed by the parent process)
 _CTX = {}
 
 
@@ -585,7 +587,13 @@ def main(chk, replay=None):
             jobs.append(dict(n=real_size(n, 3, rb), kind="bin", name=t["names"][0], hl="default", rep=0, fams=["G", "GP"],
                              transports=["mock"], sched=h, dec=False))
     _CTX.update(rows=rows, rb=rb, decs=decs)
-    results = cachelib.pool_map(_run_file, jobs, _init_worker)
+    global _BASE
+    _BASE = tlc.new_scratch("c04")
+    try:
+        results = cachelib.pool_map(_run_file, jobs, _init_worker)
+    finally:
+        shutil.rmtree(_BASE, ignore_errors=True)
+        _BASE = None
     traces = [tr for trs, _n in results for tr in trs]
     short_reads = sum(n_ for _trs, n_ in results)
     if not replay and scheds and short_reads == 0:
